@@ -32,7 +32,8 @@ Qed.
 Lemma xchg_spec c s fr t : spec true 1 s (xchg c s fr t).
 Proof.
   unfold xchg, spec, A, Sn. destruct s as [n a snt]. cbn [ans sent now].
-  destruct a as [|[| |f] r]; cbn [fst snd ans sent good okb length Nat.eqb]; rewrite ?app_length; cbn [length];
+  destruct a as [|[|d|f] r]; try destruct ((0 <? d) && (d <=? t));
+    cbn [fst snd ans sent good okb length Nat.eqb]; rewrite ?app_length; cbn [length];
     repeat split; try exact I; try lia; try discriminate.
 Qed.
 
@@ -350,7 +351,8 @@ Qed.
 Lemma xchg_corrupt c s fr t s' : xchg c s fr t = (Err TransmissionError, s') ->
   (A s' < A s)%nat /\ (Sn s' + A s' <= Sn s + A s)%nat.
 Proof.
-  unfold xchg, A, Sn. destruct s as [n a snt]. cbn [ans sent now]. destruct a as [|[| |f] r]; intro H; inversion H; subst.
+  unfold xchg, A, Sn. destruct s as [n a snt]. cbn [ans sent now].
+  destruct a as [|[|d|f] r]; try destruct ((0 <? d) && (d <=? t)); intro H; inversion H; subst.
   cbn [ans sent length]. rewrite app_length. cbn [length]. lia.
 Qed.
 
@@ -540,3 +542,76 @@ Lemma fixed_rtox_in_chaining : fst (i_exchange 8 (ex_cfg false) (mkst 0 ex_answe
 Proof. vm_compute. reflexivity. Qed.
 Lemma ex_cfg_ok o : cfg_ok (ex_cfg o).
 Proof. split; cbn; lia. Qed.
+
+(* ================================================================ the listen loop holds its deadline *)
+(* Target.send_res_recv_req listens again after a TransmissionError, each time for what is LEFT until the deadline.  Against
+   a peer that keeps sending corrupted frames - an arbitrarily long script, each frame needing at least eps > 0 time units -
+   the loop therefore ends: the number of calls depends on the time left and eps only, never on the length of the script. *)
+Definition slow (eps : Z) (a : answer) : Prop := match a with ACorrupt d => eps <= d | _ => True end.
+Definition jam (eps : Z) (a : answer) : Prop := exists d, a = ACorrupt d /\ eps <= d.
+Definition budget (eps rem : Z) : nat := Z.to_nat (Z.max 0 rem / eps).
+
+Lemma budget_step eps rem d : 0 < eps -> eps <= d -> d <= rem -> (budget eps (rem - d) + 1 <= budget eps rem)%nat.
+Proof.
+  intros He Hd Hr. unfold budget. rewrite !Z.max_r by lia.
+  assert (H1 : (rem - d) / eps <= (rem - eps) / eps) by (apply Z.div_le_mono; lia).
+  assert (H2 : (rem - eps) / eps = rem / eps - 1).
+  { replace (rem - eps) with (rem + (-1) * eps) by lia. rewrite Z.div_add by lia. lia. }
+  assert (H3 : 0 <= (rem - d) / eps) by (apply Z.div_pos; lia).
+  lia.
+Qed.
+
+Lemma jam_slow eps l : Forall (jam eps) l -> Forall (slow eps) l.
+Proof. apply Forall_impl. intros a (d & -> & H). exact H. Qed.
+
+Theorem t_listen_deadline fuel : forall c s frame dl eps,
+  0 < eps -> 0 <= ctick c -> Forall (slow eps) (ans s) -> (budget eps (dl - now s) < fuel)%nat ->
+  let r := fst (t_listen fuel c s frame dl) in
+  let s' := snd (t_listen fuel c s frame dl) in
+  good r /\ now s' <= Z.max (now s) dl + 2 * ctick c /\ (Sn s' <= Sn s + budget eps (dl - now s) + 1)%nat /\
+  (Forall (jam eps) (ans s) -> r = Err TimeoutError).
+Proof.
+  induction fuel as [|f IH]; intros c s frame dl eps He Ht Hs Hf; [lia|]. cbv zeta. cbn [t_listen].
+  set (t := if now s <? dl then dl - now s else 0).
+  assert (Et : t = Z.max 0 (dl - now s)) by (unfold t; destruct (now s <? dl) eqn:E; lia).
+  unfold xchg. destruct s as [n a snt]. cbn [ans sent now] in *.
+  assert (Hsil : forall r, let s' := mkst (n + ctick c + Z.max t (ctick c)) r (snt ++ [(frame, t)]) in
+            good (@Err (option treq) TimeoutError) /\ now s' <= Z.max n dl + 2 * ctick c /\
+            (Sn s' <= length snt + budget eps (dl - n) + 1)%nat).
+  { intro r. cbn [now]. unfold Sn. cbn [sent]. rewrite app_length. cbn [length]. repeat split; try exact I; lia. }
+  destruct a as [|[|d|fr] r].
+  - destruct (Hsil []) as (G1 & G2 & G3). cbn [fst snd]. repeat split; assumption || reflexivity.
+  - destruct (Hsil r) as (G1 & G2 & G3). cbn [fst snd]. repeat split; assumption || reflexivity.
+  - destruct ((0 <? d) && (d <=? t)) eqn:E.
+    + (* a corrupted frame inside the time left: listen again for the rest *)
+      inversion Hs as [|? ? Hd Hr]; subst. cbn [slow] in Hd.
+      assert (Hrem : dl - (n + d) = (dl - n) - d) by lia.
+      specialize (IH c (mkst (n + d) r (snt ++ [(frame, t)])) None dl eps He Ht Hr).
+      cbn [now ans] in IH. rewrite Hrem in IH.
+      pose proof (budget_step eps (dl - n) d He Hd ltac:(lia)) as Hb.
+      specialize (IH ltac:(lia)). cbv zeta in IH. destruct IH as (G1 & G2 & G3 & G4).
+      destruct (t_listen f c _ None dl) as [r' s']. cbn [fst snd] in *. unfold Sn in *. cbn [sent] in *. rewrite app_length in G3. cbn [length] in G3.
+      repeat split; [exact G1 | lia | lia |]. intro Hj. apply G4. inversion Hj; assumption.
+    + destruct (Hsil r) as (G1 & G2 & G3). cbn [fst snd]. repeat split; assumption || reflexivity.
+  - destruct (t_decode_good c fr (mkst (n + ctick c) r (snt ++ [(frame, t)]))) as (r' & -> & Hg). cbn [fst snd now].
+    unfold Sn. cbn [sent]. rewrite app_length. cbn [length].
+    repeat split; [exact Hg | lia | lia |]. intro Hj. inversion Hj as [|? ? (d & Hd & _) _]. discriminate.
+Qed.
+
+(* Target.exchange(send_data, timeout) against a peer that does nothing but send corrupted frames, however many: TimeoutError
+   after at most the time-out (plus two clock ticks of the frontend), with a number of listens that depends on timeout / eps only *)
+Theorem dep_target_jammed fuel c s pni payload timeout eps :
+  cfg_ok c -> 0 < eps -> 0 <= ctick c -> payload <> [] -> Forall (jam eps) (ans s) -> (budget eps timeout < fuel)%nat ->
+  let r := fst (t_exchange fuel c s (Some pni) None payload timeout) in
+  let s' := snd (t_exchange fuel c s (Some pni) None payload timeout) in
+  r = Err TimeoutError /\ now s' <= now s + Z.max 0 timeout + 2 * ctick c /\ (Sn s' <= Sn s + budget eps timeout + 1)%nat.
+Proof.
+  intros Hc He Ht Hp Hj Hf. cbv zeta. unfold t_exchange. destruct payload as [|b t]; [contradiction|].
+  destruct fuel as [|f]; [lia|]. cbn [t_send_loop t_sdr]. unfold t_send.
+  destruct (enc_ok false c (if cmiu c <? len (b :: t) then 1 else 0) pni (take (cmiu c) (b :: t)) Hc (len_take_le _ _ (proj1 Hc))) as [fr ->].
+  pose proof (t_listen_deadline (S f) c s (Some fr) (now s + timeout) eps He Ht (jam_slow _ _ Hj)) as H.
+  replace (now s + timeout - now s) with timeout in H by lia. specialize (H Hf). cbv zeta in H.
+  destruct H as (_ & G2 & G3 & G4). specialize (G4 Hj).
+  destruct (t_listen (S f) c s (Some fr) (now s + timeout)) as [r s']. cbn [fst snd] in *. subst r. cbn [fst snd].
+  repeat split; [lia | exact G3].
+Qed.
